@@ -108,6 +108,13 @@ P = {
         "components": comp(real=["listener/canary: Start() loop, handleTCP/UDP/ICMP knock queueing, knockDetector with its 5 s timer, UniqueSet (all real)"], simulated=["epoll + AF_PACKET syscalls, /proc tables (simsys)", "fake clock"]),
         "assumptions": ["for mixed-protocol bursts one event or one per protocol family are both accepted", "set semantics of the grouping container are exercised through the detector, not enumerated separately"],
     },
+    "C12": {
+        "runs": {"quick": 1500, "thorough": 150000},
+        "budget_s": {"quick": 200, "thorough": 3300},
+        "rule": "one scenario = one of ssh-simulator / ldap / ftp with a generated credential set (0-3 user:password pairs over {root,admin,guest,''} x {root,admin,123456,''}, optionally the wildcard and entries without separator; ftp has its fixed table) and 1-2 connections to the same service instance, each with 1-4 authentication attempts (ssh: real x/crypto/ssh client inside the bubble retrying passwords; ldap: simple binds with several DN spellings; ftp: USER/PASS) and a gated-operation probe before and after every attempt, interleaved by the choice tape; distinct = distinct trace digest; non-trivial = two connections",
+        "components": comp(real=["services ssh-simulator (real x/crypto/ssh server handshake), ldap, ftp"], stub=["x/crypto/ssh client library as the peer, running inside the bubble over simnet"]),
+        "assumptions": ["LDAP anonymous bind (empty DN and password) is answered with success and leaves the connection not logged in; its result code is not judged", "FTP PASS without parameter is a syntax error, not an attempt"],
+    },
 }
 
 def get(prop):
